@@ -78,3 +78,13 @@ Theorem C07_rpc_client_internal_steps_terminate : forall k l k' em,
   kinv k = true -> In l k_internal -> kstep k l = Some (k', em) -> k_measure k' < k_measure k.
 Proof. exact rpc_client_internal_steps_terminate. Qed.
 Print Assumptions C07_rpc_client_internal_steps_terminate.
+(* once the tunnel has delivered the notice, the handler's context is cancelled; and it is cancelled only
+   when the stream has been finished *)
+Theorem C07_rpc_cancel_notice_cancels_the_handler : forall strict v m v' em,
+  vinv strict v = true -> v_tab v = true -> vstep strict v (SLoop FCancel m) = Some (v', em) -> v_ctx v' = true.
+Proof. exact rpc_cancel_notice_cancels_the_handler. Qed.
+Print Assumptions C07_rpc_cancel_notice_cancels_the_handler.
+Theorem C07_rpc_handler_context_cancelled_iff_finished : forall strict ls s,
+  rrun strict r_init ls = Some s -> (v_ctx (r_v s) = true <-> v_fin (r_v s) <> None).
+Proof. exact rpc_handler_context_cancelled_iff_finished. Qed.
+Print Assumptions C07_rpc_handler_context_cancelled_iff_finished.
